@@ -4,6 +4,7 @@ import (
 	"fmt"
 	"go/token"
 	"go/types"
+	"sort"
 	"strings"
 
 	"golang.org/x/tools/go/ssa"
@@ -341,12 +342,40 @@ func (x *Run) onStack(fr *Frame, fn *ssa.Function) bool {
 func (x *Run) applyHavoc(st *State, ms *ModSet) {
 	if ms.Top {
 		x.havocAllExcept(st, ms.Preserves)
+		// locations written explicitly are not protected by the "preserves"
+		// list of some other callee
+		for _, a := range sortedKeys(ms.Arrs) {
+			for _, n := range x.expandMod(a) {
+				x.havocArr(st, n)
+			}
+		}
+		x.flushZeroAxioms(st)
 		return
 	}
 	for _, a := range sortedKeys(ms.Arrs) {
-		x.havocArr(st, a)
+		for _, n := range x.expandMod(a) {
+			x.havocArr(st, n)
+		}
 	}
 	x.flushZeroAxioms(st)
+}
+
+// expandMod: a modifies entry ending in "." stands for every heap array with
+// that prefix (all fields of a struct type).
+func (x *Run) expandMod(a string) []string {
+	if !strings.HasSuffix(a, ".") {
+		return []string{a}
+	}
+	var out []string
+	x.mu.Lock()
+	for n := range x.arrSorts {
+		if strings.HasPrefix(n, a) {
+			out = append(out, n)
+		}
+	}
+	x.mu.Unlock()
+	sort.Strings(out)
+	return out
 }
 
 // flushZeroAxioms re-establishes "absent keys hold zero" for map value arrays
